@@ -142,7 +142,7 @@ class Ctx:
             try:
                 p = subprocess.run([VH] + [str(a) for a in args], stdin=stdin, stdout=out,
                                    stderr=subprocess.PIPE, text=True, timeout=timeout,
-                                   env=dict(os.environ, **(env or {})))
+                                   env=dict(os.environ, VERIF_ROOTS=ROOTS, **(env or {})))
                 rc, err = p.returncode, p.stderr
             except subprocess.TimeoutExpired:
                 rc, err = -999, "timeout"
